@@ -7,7 +7,10 @@ cd /repo || exit 2
 if [ -n "$(git status --porcelain)" ]; then echo "/repo not clean"; exit 2; fi
 git apply "$D" || { echo "patch does not apply"; exit 2; }
 for id in $IDS; do
+  cp /verif/evidence/$id.json /verif/build/evidence_$id.keep 2>/dev/null
   (cd /verif && ./check $id 2>&1 | grep -E "VIOLATION|KNOWN|^\[|^  " | head -8)
+  # the evidence of a run against a mutated tree is not evidence about /repo: restore the clean-tree file
+  cp /verif/build/evidence_$id.keep /verif/evidence/$id.json 2>/dev/null
 done
 git -C /repo checkout -- .
 # regenerate tables from the clean tree
